@@ -77,6 +77,12 @@ CHECKS['C02'] = dict(level='exploration',
     note='Trusted: the T-stage dump hook is passive (C10 checks output equality with hooks on); the independent lexer is authoritative only on well-lexed input.',
     design='DESIGN.md §2 C02')
 
+CHECKS['C03'] = dict(level='exploration',
+    technique='runtime monitoring with the chunk-dump hook: comment normal-form and literal byte-equality oracles (independent lexer + T dumps) over corpus, a fixed universe of comment/literal injections and joint whitespace draws',
+    text='For each case the list of comments (in the normal form the statement allows) and the list of string/char/raw/include literals (raw bytes) of the input and of the formatted output are compared, by an independent lexer and by uncrustify\'s own T-stage dumps. Workloads: corpus x 13 curated whitespace configs, 8k injections of 23 comment shapes and hostile literals at random token boundaries (incl. inside directives, backslash-continued //, tabs, non-ASCII, raw strings with line breaks), 20k joint whitespace draws.',
+    note='Trusted: the independent lexer on well-lexed input; for other inputs a difference needs the lexer and the dumps to agree.',
+    design='DESIGN.md §2 C03')
+
 ALL = ['C%02d' % i for i in range(1, 21)]
 
 
